@@ -112,6 +112,15 @@ class Pre:
         self.dest_mode = di['mode'] if di else None
         self.part_data = bytes.fromhex(pi['data']) if pi else None
         self.part_mode = pi['mode'] if pi else None
+        self.warmup_failed = False
+        if case.get('reuse'):
+            # the same saver object completed earlier saves: the pre-state is what they left
+            w = S.run_save(case, simfs.Plan(), None, only_warmup=True)
+            self.warmup_failed = w.exc is not None
+            ps = w.pre_state
+            self.dest_data, self.dest_mode = ps['dest'], ps['dest_mode']
+            self.part_data, self.part_mode = ps['part'], ps['part_mode']
+        self.env = case.get('env') or {}
         self.new = S.new_content(case)
         self.overwrite = case.get('overwrite', True)
         self.overwrite_part = case.get('overwrite_part', False)
@@ -147,7 +156,8 @@ def judge(case, pre, r, faults, out, step, second_party=None, retry=True):
     if second_party == 'dest':
         want_dest, want_mode = b'SECOND PARTY', 0o640
     expected_failure = (pre.body_raises or pre.refused_dest or pre.refused_part
-                        or (second_party == 'dest' and not pre.overwrite) or second_party == 'part')
+                        or (second_party == 'dest' and not pre.overwrite) or second_party == 'part'
+                        or ('link' in pre.env and not pre.overwrite))
 
     if r.exc is None:
         # B2: no exception => the save completed
@@ -215,7 +225,8 @@ def judge(case, pre, r, faults, out, step, second_party=None, retry=True):
         c2 = dict(case)
         c2['body'] = [s for s in case['body'] if s[0] != 'raise']
         r2 = S.run_save(c2, simfs.Plan(), None, fs=fs)
-        refused = fs.read_path(pre.dest) is not None and not pre.overwrite and r2.exc is not None
+        refused = r2.exc is not None and not pre.overwrite and (
+            fs.read_path(pre.dest) is not None or 'link' in pre.env)
         if r2.exc is not None and not refused:
             return out.fail('retry-fails', step, 'after the failed save (%s) an immediate retry raised %r'
                             % (_why(pre, faults, second_party), r2.exc), **sig)
@@ -236,6 +247,8 @@ def _why(pre, faults, second_party):
         parts.append('overwrite=False and the destination exists')
     if pre.refused_part:
         parts.append('a part file pre-exists and overwrite_part is off')
+    if 'link' in pre.env and not pre.overwrite:
+        parts.append('the file system does not support hard links')
     if second_party:
         parts.append('another process created the %s file mid-save' % second_party)
     for kind, occ, f in faults:
@@ -322,6 +335,9 @@ def run_case(case):
         out.digest = log.digest()
         return out
 
+    if pre.warmup_failed:
+        out.digest = log.digest()
+        return out                   # the un-judged earlier saves could not complete in this configuration
     base = S.run_save(case, simfs.Plan(), log)
     out.steps = base.sim.n
     judge(case, pre, base, [], out, 0)
@@ -414,7 +430,7 @@ def shrink(case, fails):
 
 def _shrink_common(c, fails):
     for simple in ({'part_file': None}, {'dest_rel': False}, {'umask': 0o022}, {'buffering': -1},
-                   {'file_perms': None}, {'part_initial': None}, {'overwrite_part': False},
+                   {'file_perms': None}, {'part_initial': None}, {'overwrite_part': False}, {'reuse': 0}, {'env': None},
                    {'overwrite': True}, {'dest_initial': None}, {'blksize': 8192}):
         c = shrinkers.try_set(c, simple, fails)
     c = shrinkers.shrink_list_field(c, 'body', fails)
